@@ -15,40 +15,67 @@ package vcode
 //@ pure since(t time.Time, u time.Time) int64 = spec_unixnano(t) - spec_unixnano(u)
 //@ pure verrs() bool = ErrSendTooFreq != nil && ErrVerifyCodeRetryLimit != nil && ErrSendCountLimit != nil && ErrVerifyCodeNotExist != nil && ErrVerifyCodeTimeout != nil && ErrVerifyCodeNotMatch != nil && ErrVerifyCodeHashNotMatch != nil
 //
-// The cache facade: every access records the key it was asked for (ghost lastKey); results are arbitrary.
+// The cache facade as a map (ghost vmap): every access records the key it was asked for (ghost lastKey); a lookup
+// answers from the map, Set stores the entry. ASSUMED: the cache is large enough that the entry just stored is not
+// evicted at once (the property speaks about codes the cache still holds).
+//@ assumption vcode: the cache facade behaves as a map and does not evict the entry being stored
+//@ ghost vmap map[interface{}]interface{}
+//@ pure vsameBut(k interface{}) bool = forall q interface{} :: { has(vmap, q) } q != k ==> has(vmap, q) == old(has(vmap, q)) && vmap[q] == old(vmap[q])
+//@ pure vsame() bool = forall q interface{} :: { has(vmap, q) } has(vmap, q) == old(has(vmap, q)) && vmap[q] == old(vmap[q])
 //@ func CacheModule.Get
-//@   trusted cache facade (user supplied or simpleCache): records the key, returns anything
-//@   ensures lastKey == key && forall x *vCache :: { x.sendCount } x.sendCount < 4611686018427387904 && x.verifyCount < 4611686018427387904
+//@   trusted cache facade (user supplied or simpleCache): a map lookup that records the key
+//@   ensures lastKey == key && (result1 <==> has(vmap, key)) && (result1 ==> result0 == vmap[key]) && forall x *vCache :: { x.sendCount } x.sendCount < 4611686018427387904 && x.verifyCount < 4611686018427387904
 //@   modifies lastKey
 //@ func CacheModule.Peek
-//@   trusted cache facade: records the key, returns anything
-//@   ensures lastKey == key && forall x *vCache :: { x.sendCount } x.sendCount < 4611686018427387904 && x.verifyCount < 4611686018427387904
+//@   trusted cache facade: a map lookup that records the key
+//@   ensures lastKey == key && (result1 <==> has(vmap, key)) && (result1 ==> result0 == vmap[key]) && forall x *vCache :: { x.sendCount } x.sendCount < 4611686018427387904 && x.verifyCount < 4611686018427387904
 //@   modifies lastKey
 //@ func CacheModule.Set
-//@   trusted cache facade: records the key
-//@   ensures lastKey == key && forall x *vCache :: { x.sendCount } x.sendCount < 4611686018427387904 && x.verifyCount < 4611686018427387904
-//@   modifies lastKey
+//@   trusted cache facade: stores the entry and records the key
+//@   ensures lastKey == key && has(vmap, key) && vmap[key] == value && vsameBut(key) && forall x *vCache :: { x.sendCount } x.sendCount < 4611686018427387904 && x.verifyCount < 4611686018427387904
+//@   modifies lastKey, entries(vmap)
 //@ func funcval fn
 //@   trusted bound method value of the cache facade (Get or Peek)
-//@   ensures lastKey == key && forall x *vCache :: { x.sendCount } x.sendCount < 4611686018427387904 && x.verifyCount < 4611686018427387904
+//@   ensures lastKey == key && (result1 <==> has(vmap, key)) && (result1 ==> result0 == vmap[key]) && forall x *vCache :: { x.sendCount } x.sendCount < 4611686018427387904 && x.verifyCount < 4611686018427387904
 //@   modifies lastKey
+//@ ghost smsSent int
 //@ func smsModule.SendCode
-//@   trusted SMS gateway: any result, no effect on the verified state
-//@   modifies
+//@   trusted SMS gateway: any result (including the package's own error values), no effect on the verified state; counts itself
+//@   ensures smsSent == old(smsSent) + 1
+//@   modifies smsSent
 //
+//@ pure isent(k string) bool = has(vmap, any(k)) && tag(vmap[any(k)]) == tagof(*vCache) && *vCache(vmap[any(k)]) != nil
+//@ pure ent(k string) *vCache = *vCache(vmap[any(k)])
 //@ func sender.fetchCache
 //@   requires s.cacheM != nil
 //@   ensures lastKey == any(key) && forall x *vCache :: { x.sendCount } x.sendCount < 4611686018427387904 && x.verifyCount < 4611686018427387904
+//@   ensures #found isent(key) ==> result == ent(key)
+//@   ensures #absent !isent(key) ==> result == nil
 //@   modifies lastKey
 //
+// SendSMSCode as a whole operation: a refused send changes nothing; an accepted one leaves, under the key both
+// operations agree on, an entry with zero attempts, the current time, and the hash handed to the caller; the attempt
+// counter of ANY entry is only ever reset together with a counted send at the current time (attempts against one sent
+// code cannot be forgotten for free).
 //@ func sender.SendSMSCode
 //@   requires s.cacheM != nil && s.Config != nil && s.sms != nil && verrs() && s.CodeLen >= 0
 //@   ensures #key lastKey == any(keyOf(areaCode, phone))
-//@   modifies lastKey, vCache.counterTime, vCache.setTime, vCache.sendCount, vCache.verifyCount, vCache.code, vCache.hash, region($alloc)
+//@   ensures #gateway smsSent == old(smsSent) || (smsSent == old(smsSent) + 1 && !s.Mock)
+//@   ensures #refused result1 != nil && smsSent == old(smsSent) ==> vsame() && forall x *vCache :: { x.verifyCount } x.verifyCount == old(x.verifyCount) && x.code == old(x.code) && x.hash == old(x.hash) && x.setTime == old(x.setTime)
+//@   ensures #stored result1 == nil ==> isent(keyOf(areaCode, phone)) && ent(keyOf(areaCode, phone)).hash == result0 && ent(keyOf(areaCode, phone)).verifyCount == 0 && spec_unixnano(ent(keyOf(areaCode, phone)).setTime) == nowNano && (!s.Mock ==> len(ent(keyOf(areaCode, phone)).code) == s.CodeLen)
+//@   ensures #resetcosts forall x *vCache :: { x.verifyCount } x.verifyCount < old(x.verifyCount) ==> x.verifyCount == 0 && spec_unixnano(x.setTime) == nowNano && (x.sendCount == old(x.sendCount) + 1 || x.sendCount == 1)
+//@   ensures #others vsameBut(any(keyOf(areaCode, phone)))
+//@   modifies lastKey, smsSent, entries(vmap), vCache.counterTime, vCache.setTime, vCache.sendCount, vCache.verifyCount, vCache.code, vCache.hash, region($alloc)
 //
+// VerifySMSCode as a whole operation: unknown key -> not-exist; otherwise the attempt is counted first and the verdict
+// is nil exactly for the stored code and hash within the attempt limit and the lifetime
 //@ func sender.VerifySMSCode
 //@   requires s.cacheM != nil && s.Config != nil && verrs()
 //@   ensures #key lastKey == any(keyOf(areaCode, phone))
+//@   ensures #absent !isent(keyOf(areaCode, phone)) ==> result == ErrVerifyCodeNotExist
+//@   ensures #counted isent(keyOf(areaCode, phone)) ==> ent(keyOf(areaCode, phone)).verifyCount == old(ent(keyOf(areaCode, phone)).verifyCount) + 1
+//@   ensures #verdict isent(keyOf(areaCode, phone)) ==> (result == nil <==> (ent(keyOf(areaCode, phone)).verifyCount <= s.MaxVerifyCount && ent(keyOf(areaCode, phone)).code == code && ent(keyOf(areaCode, phone)).hash == hash && nowNano - spec_unixnano(ent(keyOf(areaCode, phone)).setTime) <= int64(s.TTL)))
+//@   ensures #readonly vsame() && forall x *vCache :: { x.code } x.code == old(x.code) && x.hash == old(x.hash) && x.setTime == old(x.setTime) && x.sendCount == old(x.sendCount)
 //@   modifies lastKey, vCache.verifyCount
 //
 //@ func sender.checkSend
@@ -94,3 +121,10 @@ package vcode
 //@   modifies
 //@   loop 1
 //@     invariant 0 <= i
+//
+// a code just sent verifies with the returned hash (attempt limit >= 1, lifetime >= 0, no time elapsed): harness in
+// zz_harness_verif.go, proved from the two whole-operation contracts above (a caller is checked against contracts only)
+//@ func verifSendThenVerify
+//@   requires s != nil && s.cacheM != nil && s.Config != nil && s.sms != nil && verrs() && s.CodeLen >= 0 && s.MaxVerifyCount >= 1 && int64(s.TTL) >= 0
+//@   ensures #verifies result == nil
+//@   modifies lastKey, smsSent, entries(vmap), vCache.counterTime, vCache.setTime, vCache.sendCount, vCache.verifyCount, vCache.code, vCache.hash, region($alloc)
